@@ -14,6 +14,8 @@
 //                                   <triple>[;<triple>...] (FactoryParse result list)
 //   lt|gt|le|ge|eq <a> <b>          Ip::Address operator < > <= >= ==        -> 0|1
 //   mip <a> <b>                     a.matchIPAddr(b)                          -> -1|0|1
+//   fam <a>                         isIPv4() isAnyAddr() isNoAddr()           -> three bits
+//   dmask <int> <4|6>               acl_ip_data::DecodeMask("<int>", mask, AF_INET|AF_INET6) -> <mask> | X
 //   amask <a> <m>                   a.applyMask(m)                            -> <changes> <a'>
 //   fl <triple>                     firstAddress() lastAddress()              -> <first> <last>
 //   cmp <t1> <t2>                   SplayInserter<acl_ip_data*>::Compare      -> int
@@ -180,6 +182,13 @@ int main()
                 else if (op == "ge") o << (x >= y ? 1 : 0);
                 else if (op == "eq") o << (x == y ? 1 : 0);
                 else o << x.matchIPAddr(y);
+            } else if (op == "fam") {
+                Ip::Address x = addrOf(a.at(1));
+                o << (x.isIPv4() ? 1 : 0) << (x.isAnyAddr() ? 1 : 0) << (x.isNoAddr() ? 1 : 0);
+            } else if (op == "dmask") {
+                Ip::Address m;
+                const bool ok = acl_ip_data::DecodeMask(a.at(1).c_str(), m, a.at(2) == "4" ? AF_INET : AF_INET6);
+                if (ok) o << hexOf(m); else o << "X";
             } else if (op == "amask") {
                 Ip::Address x = addrOf(a.at(1)), m = addrOf(a.at(2));
                 const int changes = x.applyMask(m);
